@@ -14,6 +14,7 @@ import (
 	"math/rand"
 	"net/http"
 	"net/url"
+	"os"
 	"sort"
 	"strconv"
 	"strings"
@@ -134,6 +135,29 @@ func flattenCommas(vals []string) []string {
 	return out
 }
 
+// sameSet: the same set of values (a key announced twice is repeated by net/http)
+func sameSet(a, b []string) bool {
+	in := func(x string, l []string) bool {
+		for _, y := range l {
+			if x == y {
+				return true
+			}
+		}
+		return false
+	}
+	for _, x := range a {
+		if !in(x, b) {
+			return false
+		}
+	}
+	for _, y := range b {
+		if !in(y, a) {
+			return false
+		}
+	}
+	return true
+}
+
 func equalStrings(a, b []string) bool {
 	if len(a) != len(b) {
 		return false
@@ -167,8 +191,7 @@ func errMessage(r *rand.Rand, class string) string {
 func errDetails(n int) []*anypb.Any {
 	out := make([]*anypb.Any, 0, n)
 	for i := 0; i < n; i++ {
-		a, _ := anypb.New(durationpb.New(durationpb.New(0).AsDuration() + 1000000007*1e0*1 + 0))
-		a.Value = append(a.Value, []byte{0x10, byte(i + 1)}...) // nanos = i+1, keeps details distinct
+		a, _ := anypb.New(&durationpb.Duration{Seconds: 1, Nanos: int32(i + 1)}) // distinct, canonical encodings
 		out = append(out, a)
 	}
 	return out
@@ -188,6 +211,7 @@ type run struct {
 	hTrls    []hdrTok // handler trailers
 	errMsg   string
 	errDet   []*anypb.Any
+	faulty   bool // the scenario injects a stream fault somewhere
 
 	mu       sync.Mutex
 	disp     []dispatchObs
@@ -207,6 +231,9 @@ func (rn *run) msg(id int) proto.Message {
 		kind := rn.scn.Msgs[strconv.Itoa(id)]
 		if kind == "" {
 			kind = msgKinds[rn.rnd.Intn(len(msgKinds))]
+			if rn.faulty && kind == "empty" {
+				kind = "ascii" // a fault needs bytes to bite on
+			}
 		}
 		rn.dict[id-1] = genMsg(rn.rnd, kind, id)
 	}
@@ -215,6 +242,14 @@ func (rn *run) msg(id int) proto.Message {
 
 func newRun(scn *scenario, seed int64) *run {
 	rn := &run{scn: scn, rnd: rand.New(rand.NewSource(seed))}
+	rn.faulty = scn.Cl.Cut != "" || scn.Hd.Fault != "" || scn.Cl.CLen == "over" || scn.Cl.CLen == "under" ||
+		scn.Hd.CLen == "short" || scn.Hd.CLen == "long"
+	for _, f := range scn.Cl.Frames {
+		rn.faulty = rn.faulty || f.Fault != ""
+	}
+	for _, f := range scn.Hd.Frames {
+		rn.faulty = rn.faulty || f.Fault != ""
+	}
 	rn.method = verifService().Methods().ByName(protoreflect.Name(scn.Cl.Method))
 	if rn.method != nil {
 		rn.reqDesc, rn.respDesc = rn.method.Input(), rn.method.Output()
@@ -448,6 +483,79 @@ func (rn *run) buildRequest() (*http.Request, *scriptBody, []byte) {
 		k, v, _ := strings.Cut(line, ": ")
 		hdr.Add(k, v)
 	}
+	// rejection classes named by the scenario generator (Stream.tla, ChooseReject)
+	switch cl.Rej {
+	case "multict":
+		if hdr.Get("Content-Type") == "" {
+			hdr.Add("Content-Type", "application/proto")
+		}
+		hdr.Add("Content-Type", "application/json")
+	case "connectver-noct-post":
+		hdr.Del("Content-Type")
+		hdr.Set("Connect-Protocol-Version", "1")
+		method = http.MethodPost
+		query = url.Values{}
+	case "connectq-post":
+		hdr.Del("Content-Type")
+		hdr.Del("Connect-Protocol-Version")
+		method = http.MethodPost
+		query = url.Values{"connect": {"v1"}}
+	case "unknownpath", "unknownpath-handler":
+		if cl.Form == "rest" {
+			path = "/v9/nothing/here"
+		} else {
+			path = svcPrefix + "NoSuchMethod"
+		}
+	case "restnoroute":
+		path = "/v1/things/a/b/c/d"
+	case "rest405":
+		method = http.MethodDelete
+		path = "/v1/things"
+	case "rpc-get-notnse":
+		method = http.MethodGet
+		if cl.Form == "connect_post" {
+			hdr.Set("Content-Type", "application/"+cl.Codec)
+		}
+	case "rpc-put":
+		if cl.Form == "rest" {
+			method = http.MethodPatch
+		} else {
+			method = http.MethodPut
+		}
+	case "badtimeout":
+		switch cl.Form {
+		case "grpc", "grpcweb":
+			hdr.Set("Grpc-Timeout", "12x")
+		case "rest":
+			hdr.Set("X-Server-Timeout", "soon")
+		default:
+			hdr.Set("Connect-Timeout-Ms", "1.5e3")
+		}
+	case "contentencoding":
+		hdr.Set("Content-Encoding", "gzip")
+	case "unknowncomp":
+		switch cl.Form {
+		case "grpc", "grpcweb":
+			hdr.Set("Grpc-Encoding", "br")
+		case "connect_stream":
+			hdr.Set("Connect-Content-Encoding", "br")
+		default:
+			hdr.Set("Content-Encoding", "br")
+		}
+	case "unknowncodec":
+		switch cl.Form {
+		case "grpc":
+			hdr.Set("Content-Type", "application/grpc+xml")
+		case "grpcweb":
+			hdr.Set("Content-Type", "application/grpc-web+xml")
+		case "connect_stream":
+			hdr.Set("Content-Type", "application/connect+xml")
+		case "connect_get":
+			query.Set("encoding", "xml")
+		default:
+			hdr.Set("Content-Type", "application/xml")
+		}
+	}
 
 	full := body
 	var cutErr error
@@ -519,6 +627,16 @@ func (rn *run) buildRequest() (*http.Request, *scriptBody, []byte) {
 	}
 	if req.ContentLength >= 0 {
 		hdr.Set("Content-Length", strconv.FormatInt(req.ContentLength, 10))
+	}
+	// net/http enforces a declared Content-Length on the request body: a short body ends
+	// with io.ErrUnexpectedEOF, a long one is cut at the declared length
+	switch cl.CLen {
+	case "over":
+		cutErr = io.ErrUnexpectedEOF
+	case "under":
+		if int64(len(body)) > req.ContentLength {
+			body = body[:req.ContentLength]
+		}
 	}
 	sb := &scriptBody{data: append([]byte(nil), body...), chunks: cl.Chunks, cutErr: cutErr}
 	req.Body = sb
@@ -770,6 +888,12 @@ func (rn *run) serveBackend(kind string, w http.ResponseWriter, req *http.Reques
 			fo := frameObs{Flags: -1, Decl: 0, Actual: 0, DeclZ: d.Enc != "", Form: "raw"}
 			fo.ID = rn.identifyPayload(codec, "", false, desc, nil, firstM(rn.scn.Cl.Frames))
 			d.Frames = append(d.Frames, fo)
+		}
+	}
+	if rerr != nil && !formEnveloped(form) {
+		// the body of an un-enveloped request broke off: whatever arrived is not a complete message
+		for i := range d.Frames {
+			d.Frames[i].ID = -3
 		}
 	}
 	if rn.sentReq != nil {
@@ -1029,7 +1153,7 @@ func (rn *run) respond(w http.ResponseWriter, form, codec string, herr int) {
 			if end.Style == "prefixed" {
 				afterBody = func() {
 					for k, v := range endHdr {
-						h[http.TrailerPrefix+k] = v
+						w.Header()[http.TrailerPrefix+k] = v
 					}
 				}
 			} else {
@@ -1038,7 +1162,7 @@ func (rn *run) respond(w http.ResponseWriter, form, codec string, herr int) {
 				}
 				afterBody = func() {
 					for k, v := range endHdr {
-						h[k] = v
+						w.Header()[k] = v
 					}
 				}
 			}
@@ -1126,7 +1250,7 @@ func (rn *run) respond(w http.ResponseWriter, form, codec string, herr int) {
 			}
 			afterBody = func() {
 				for k, v := range trailers {
-					h[k] = v
+					w.Header()[k] = v
 				}
 			}
 		}
@@ -1137,9 +1261,12 @@ func (rn *run) respond(w http.ResponseWriter, form, codec string, herr int) {
 	}
 
 	// backend-side stream faults
+	keepEnd := strings.HasPrefix(hd.Fault, "cutenvok:") || strings.HasPrefix(hd.Fault, "cutpayok:")
+	faultKind := strings.Replace(hd.Fault, "ok:", ":", 1)
+	savedAfter := afterBody
 	switch {
-	case strings.HasPrefix(hd.Fault, "cutenv:"):
-		k, _ := strconv.Atoi(strings.TrimPrefix(hd.Fault, "cutenv:"))
+	case strings.HasPrefix(faultKind, "cutenv:"):
+		k, _ := strconv.Atoi(strings.TrimPrefix(faultKind, "cutenv:"))
 		fr, _ := splitFrames(body)
 		if len(fr) > 0 {
 			// cut inside the envelope of the last DATA frame and drop everything after it
@@ -1159,8 +1286,8 @@ func (rn *run) respond(w http.ResponseWriter, form, codec string, herr int) {
 				afterBody = nil
 			}
 		}
-	case strings.HasPrefix(hd.Fault, "cutpay:"):
-		k, _ := strconv.Atoi(strings.TrimPrefix(hd.Fault, "cutpay:"))
+	case strings.HasPrefix(faultKind, "cutpay:"):
+		k, _ := strconv.Atoi(strings.TrimPrefix(faultKind, "cutpay:"))
 		fr, _ := splitFrames(body)
 		off := 0
 		lastData := -1
@@ -1178,6 +1305,9 @@ func (rn *run) respond(w http.ResponseWriter, form, codec string, herr int) {
 		}
 	case hd.Fault == "afterend":
 		body = append(body, envelope(0, []byte("late data"))...)
+	}
+	if keepEnd {
+		afterBody = savedAfter
 	}
 
 	switch hd.CLen {
@@ -1452,7 +1582,11 @@ func (rn *run) parseClient(form string, res served) clientObs {
 		if co.Enc == "identity" {
 			co.Enc = ""
 		}
-		co.Frames, co.Rest = rn.observeFrames(form, clientCodec, co.Enc, desc, w.body, 0x80, rn.scn.Hd.Frames)
+		mask := byte(0x80)
+		if form == "grpc" {
+			mask = 0 // gRPC has no in-body end-of-stream frame
+		}
+		co.Frames, co.Rest = rn.observeFrames(form, clientCodec, co.Enc, desc, w.body, mask, rn.scn.Hd.Frames)
 		inHeaders := len(h.Values("Grpc-Status")) > 0
 		if inHeaders {
 			co.Ends++
@@ -1465,9 +1599,10 @@ func (rn *run) parseClient(form string, res served) clientObs {
 			if len(res.trailers.Values("Grpc-Status")) > 0 {
 				co.Ends++
 				if inHeaders {
+					debugDup(h, res.trailers)
 					co.EndDup = "diff"
-					if equalStrings(res.trailers.Values("Grpc-Status"), h.Values("Grpc-Status")) &&
-						equalStrings(res.trailers.Values("Grpc-Message"), h.Values("Grpc-Message")) {
+					if sameSet(res.trailers.Values("Grpc-Status"), h.Values("Grpc-Status")) &&
+						sameSet(res.trailers.Values("Grpc-Message"), h.Values("Grpc-Message")) {
 						co.EndDup = "same"
 					}
 				}
@@ -1557,7 +1692,16 @@ func detailsMatch(got [][2]string, want []*anypb.Any) bool {
 		if got[i][0] != strings.TrimPrefix(d.GetTypeUrl(), "type.googleapis.com/") {
 			return false
 		}
-		if got[i][1] != base64.RawStdEncoding.EncodeToString(d.GetValue()) {
+		raw, err := base64.RawStdEncoding.DecodeString(strings.TrimRight(got[i][1], "="))
+		if err != nil {
+			return false
+		}
+		if bytes.Equal(raw, d.GetValue()) {
+			continue
+		}
+		// a detail that travelled as JSON may be re-encoded: compare the decoded values
+		var a, b durationpb.Duration
+		if proto.Unmarshal(raw, &a) != nil || proto.Unmarshal(d.GetValue(), &b) != nil || !proto.Equal(&a, &b) {
 			return false
 		}
 	}
@@ -1590,7 +1734,7 @@ func runScenario(scn *scenario, seed int64) observation {
 	var done atomic.Bool
 	body.done = &done
 	w := newRecWriter(&done)
-	res := serve(tc, req, body, w, &done, scn.Cl.NoFlush)
+	res := serve(tc, req, body, w, &done, scn.Cl.NoFlush || scn.Cl.Rej == "noflusher")
 	obs.Disp = rn.disp
 	obs.Cl = rn.parseClient(scn.Cl.Form, res)
 	obs.Ret.Panic = res.panicVal != nil
@@ -1609,3 +1753,13 @@ func runScenario(scn *scenario, seed int64) observation {
 	obs.Ret.Late = int(body.late.Load() + w.late.Load())
 	return obs
 }
+
+func init() {
+	debugDup = func(h, tr http.Header) {
+		if os.Getenv("VERIF_DEBUG") != "" {
+			fmt.Fprintf(os.Stderr, "HEAD %v\nTRAIL %v\n", h, tr)
+		}
+	}
+}
+
+var debugDup func(h, tr http.Header)
